@@ -3,6 +3,9 @@
    Property theorems only; proofs are in Proofs/Pricefeed.v. *)
 From Coq Require Import Permutation Sorted.
 From Kava Require Import Base.Prelude Base.Dec Model.Pricefeed Proofs.Pricefeed.
+(* the Dec differential of every run evaluates its case files against Model/DecCheck;
+   requiring it here makes it part of this property's build closure (clean thorough-tier rebuild) *)
+From Kava Require Model.DecCheck.
 Local Open Scope Z_scope.
 
 (** ** The median is a function of the multiset of prices *)
